@@ -6,6 +6,7 @@ import (
 	"fmt"
 	"strings"
 
+	rvole_bbot "github.com/bronlabs/bron-crypto/pkg/mpc/rvole/bbot"
 	"github.com/bronlabs/bron-crypto/pkg/mpc/sharing"
 	"github.com/bronlabs/bron-crypto/pkg/ot/base/ecbbot"
 	"github.com/bronlabs/bron-crypto/pkg/ot/base/vsot"
@@ -148,6 +149,54 @@ func c09ECBBOT(env *SymEnv, l int, choices []byte) {
 	env.Reach("ecbbot-done")
 }
 
+// c09RVOLE: the OT-based multiplication (random vector OLE over ECBBOT): Alice's inputs a_i
+// symbolic, all randomness symbolic; outputs satisfy c_i + d_i = a_i · b for every i, Bob's
+// consistency check accepts the honest Alice.
+func c09RVOLE(env *SymEnv, l int) {
+	env.AssumeDrawsNonZero()
+	env.R.SetGenericNonIdentity(true)
+	group := env.R.Group()
+	suite, err := rvole_bbot.NewSuite[sG, sF](l, group)
+	if !env.Check("C09.rvole/suite-ok", err == nil, fmt.Sprint(err)) {
+		return
+	}
+	ctxs, err := makeContexts(fmt.Sprintf("c09/rvole/%d", l), []sharing.ID{1, 2})
+	if !env.Check("C09.rvole/contexts-ok", err == nil, fmt.Sprint(err)) {
+		return
+	}
+	alice, e1 := rvole_bbot.NewAlice(ctxs[1], suite, env.Reader("alice"))
+	bob, e2 := rvole_bbot.NewBob(ctxs[2], suite, env.Reader("bob"))
+	if !env.Check("C09.rvole/participants-ok", e1 == nil && e2 == nil, fmt.Sprint(e1, e2)) {
+		return
+	}
+	r1, err := alice.Round1()
+	if !env.Check("C09.rvole/round1-ok", err == nil, fmt.Sprint(err)) {
+		return
+	}
+	r2, b, err := bob.Round2(r1)
+	if !env.Check("C09.rvole/round2-ok", err == nil, fmt.Sprint(err)) {
+		return
+	}
+	a := make([]sF, l)
+	for i := range a {
+		a[i] = env.Scalar(fmt.Sprintf("a%d", i))
+	}
+	r3, c, err := alice.Round3(r2, a)
+	if !env.Check("C09.rvole/round3-ok", err == nil, fmt.Sprint(err)) {
+		return
+	}
+	d, err := bob.Round4(r3)
+	if !env.Check("C09.rvole/round4-ok (Bob's consistency check accepts the honest Alice)", err == nil, fmt.Sprint(err)) {
+		return
+	}
+	var eqs []symalg.Pred
+	for i := 0; i < l; i++ {
+		eqs = append(eqs, env.EqF(c[i].Add(d[i]), a[i].Mul(b)))
+	}
+	env.Valid("C09.rvole/c_i + d_i = a_i · b for every i", symalg.And(eqs...))
+	env.Reach("rvole-done")
+}
+
 // C09Cases (E2 part).
 func C09Cases(tier string, seed int64) []Case {
 	var cases []Case
@@ -165,6 +214,11 @@ func C09Cases(tier string, seed int64) []Case {
 			cases = append(cases, Case{ID: fmt.Sprintf("C09/ecbbot/L=%d/choices=%x", l, ch), Desc: map[string]any{"protocol": "ecbbot", "Xi": 8 * len(ch), "L": l, "choices": fmt.Sprintf("%x", ch), "randomness": "symbolic"},
 				Sym: func(e *SymEnv) { c09ECBBOT(e, ll, c) }, MustReach: []string{"ecbbot-done"}})
 		}
+	}
+	for _, l := range []int{1, 2} {
+		ll := l
+		cases = append(cases, Case{ID: fmt.Sprintf("C09/rvole-bbot/L=%d", l), Desc: map[string]any{"protocol": "rvole/bbot over ecbbot", "L": l, "inputs and randomness": "symbolic", "xi": "kappa + 2·80 OT instances"},
+			Sym: func(e *SymEnv) { c09RVOLE(e, ll) }, MustReach: []string{"rvole-done"}, NoConcreteValidation: true})
 	}
 	return cases
 }
